@@ -65,16 +65,19 @@ var propRules = map[string]*PropSpec{
 		Technique:  techOwn,
 	},
 	"C04": {
-		Rules:       []string{"F7", "F1", "A1.api32"},
+		Rules:       []string{"F7", "F1", "A1.api32", "F12"},
 		Explanation: explBase + " C04: the early-termination clause and the purity of iteration are decided; kind dispatch in iterator init / Iterate / Ranges is exhaustive.",
-		Decided:     []string{"every callback invocation's stop answer is examined and, once false, the callback is never invoked again (Iterate, Values, Backward, Unset, Ranges, per-kind iterate)", "iterator init / Iterate / Ranges handle all three kinds", "iteration never changes the bitmap's contents"},
-		NotDecided:  []string{"order/completeness of the produced sequence", "AdvanceIfNeeded / PeekNext arithmetic", "unset-iterator gap handling", "Ranges merging across chunks"},
-		Technique:   "static analysis: CFG reachability after the stop edge (go/ssa), AST type-switch exhaustiveness, ownership summaries",
+		Decided: []string{
+			"range-over-func sequences capture only parameters: each traversal creates its own iterator state",
+			"every callback invocation's stop answer is examined and, once false, the callback is never invoked again (Iterate, Values, Backward, Unset, Ranges, per-kind iterate)", "iterator init / Iterate / Ranges handle all three kinds", "iteration never changes the bitmap's contents"},
+		NotDecided: []string{"order/completeness of the produced sequence", "AdvanceIfNeeded / PeekNext arithmetic", "unset-iterator gap handling", "Ranges merging across chunks"},
+		Technique:  "static analysis: CFG reachability after the stop edge (go/ssa), AST type-switch exhaustiveness, ownership summaries",
 	},
 	"C05": {
-		Rules:       []string{"B1", "B2", "B5", "L2", "L5", "A4", "F8.bitmap", "A8", "G1", "F8.scratch", "F2.repair", "R1", "U3", "PT2"},
+		Rules:       []string{"B1", "B2", "B5", "L2", "L5", "A4", "F8.bitmap", "A8", "G1", "F8.scratch", "F2.repair", "R1", "U3", "PT2", "L1"},
 		Explanation: explBase + " C05: error propagation on every encode/decode path, byte accounting of writers and readers, bounded reads, agreement of size prediction / writer / reader on the offset-header predicate and payload sizes, and flagging of zero-copy payloads.",
 		Decided: []string{
+			"ToBase64 and FromBase64 use the same alphabet",
 			"every decoder resets or reassigns all three table arrays of the receiver on every successful path (decoding into a used bitmap keeps nothing)",
 			"the copying decoders (ReadFrom, UnmarshalBinary, FromBase64) keep no pointer into the caller's slice; only the documented zero-copy constructors do",
 			"decoding uses no package-level scratch memory",
@@ -116,7 +119,7 @@ var propRules = map[string]*PropSpec{
 		Technique:  techOwn,
 	},
 	"C08": {
-		Rules:       []string{"A4", "A5", "A2.32", "A3.32", "A8"},
+		Rules:       []string{"A4", "A5", "A2.32", "A3.32", "A8", "B6"},
 		Explanation: explBase + " C08: caller-owned memory enters a bitmap only as container payload under a true copy-on-write flag, never as a slot-table array; every payload write honours the flag; detach deep-copies every flagged slot.",
 		Decided: []string{
 			"only the documented zero-copy constructors keep a reference to a caller's slice",
@@ -135,9 +138,12 @@ var propRules = map[string]*PropSpec{
 		Technique:  techMix,
 	},
 	"C10": {
-		Rules:       []string{"B1", "B4", "B5", "T1", "V1", "V2", "U1", "G1", "U3"},
+		Rules:       []string{"B1", "B4", "B5", "T1", "V1", "V2", "U1", "G1", "U3", "L4", "B6"},
 		Explanation: explBase + " C10: decoder error discipline, Must* wrappers, bounded reads, size fields bounded before allocation, validator conjuncts (incl. the wrap bound on every run), no 16-bit arithmetic in the frozen reader.",
 		Decided: []string{
+			"FrozenView evaluates all 256 type-code values: each is either built or rejected",
+			"a decoded length extends one of the receiver's arrays only behind a capacity test on that same array",
+			"no decoder consults cap() of the caller's bytes",
 			"no decoder drops one of its parameters (MustReadFrom/ReadFrom forward the pre-read cookie)",
 			"decoders use no package-level scratch memory",
 			"no decoder error is dropped (incl. SkipBytes); MustReadFrom returns ReadFrom's results and panics only with Validate's error", "byte sources check bounds before every slice/advance", "decoded sizes are bounded by a constant before make()/slicing (32-bit decoders)", "validators contain every conjunct the property lists, evaluated on every element"},
@@ -164,7 +170,7 @@ var propRules = map[string]*PropSpec{
 		Technique:  "static analysis: goroutine/channel/WaitGroup/pool skeleton rules over go/ssa CFG (must-pass-through, at-most-once)",
 	},
 	"C13": {
-		Rules:       []string{"L4", "L1", "B1", "B3", "A4", "T1", "R1"},
+		Rules:       []string{"L4", "L1", "B1", "B3", "A4", "T1", "R1", "B6"},
 		Explanation: explBase + " C13: the three frozen writers, the size predictor and the reader agree on type codes, count fields, element sizes and arena order; FreezeTo checks the buffer before writing; errors propagate; the view is flagged.",
 		Decided: []string{
 			"every decoder resets or reassigns all three table arrays of the receiver on every successful path (decoding into a used bitmap keeps nothing)",
@@ -191,14 +197,16 @@ var propRules = map[string]*PropSpec{
 		Technique:  "static analysis: integer-width rule over go/ssa with a triaged allow-list; ownership summaries",
 	},
 	"C16": {
-		Rules:       []string{"A1.api32", "A3.32", "A6.kernel", "F5", "F6", "A4", "F3.32", "F8.bitmap", "F8.run", "F8.scratch"},
+		Rules:       []string{"A1.api32", "A3.32", "A6.kernel", "F5", "F6", "A4", "F3.32", "F8.bitmap", "F8.run", "F8.scratch", "B6"},
 		Explanation: explBase + " C16: AddOffset/Flip/ToDense leave b unchanged; results hold only fresh or properly shared containers; static Flip inserts at the answer's index; addOffset nil discipline; FromDense(no copy) never writes the caller's words; shifted parts are re-typed.",
-		Decided:     []string{"AddOffset/AddOffset64/Flip/ToDense/WriteDenseTo never change their bitmap argument", "AddOffset64 and static Flip store only fresh containers or certified hand-offs", "static Flip inserts with an index searched in the answer", "addOffset never returns a typed nil inside the container interface", "FromDense without copy flags the container whenever its payload is the caller's slice", "Flip drops empty results; addOffset parts are returned in their cheapest representation"},
-		NotDecided:  []string{"offset/carry arithmetic", "dense bit layout", "floor division for negative offsets"},
-		Technique:   techMix,
+		Decided: []string{
+			"FromDense never consults cap() of the caller's words (nothing beyond len is read)",
+			"AddOffset/AddOffset64/Flip/ToDense/WriteDenseTo never change their bitmap argument", "AddOffset64 and static Flip store only fresh containers or certified hand-offs", "static Flip inserts with an index searched in the answer", "addOffset never returns a typed nil inside the container interface", "FromDense without copy flags the container whenever its payload is the caller's slice", "Flip drops empty results; addOffset parts are returned in their cheapest representation"},
+		NotDecided: []string{"offset/carry arithmetic", "dense bit layout", "floor division for negative offsets"},
+		Technique:  techMix,
 	},
 	"C17": {
-		Rules:       []string{"A2.64", "A3.64", "F3.64", "F5", "F9", "A1.api64", "A5"},
+		Rules:       []string{"A2.64", "A3.64", "F3.64", "F5", "F9", "A1.api64", "A5", "F12"},
 		Explanation: explBase + " C17: the 64-bit bitmap's bucket table obeys the same ownership discipline (bucket = container), drops emptied buckets, inserts at the right index and its aggregates return fresh bitmaps.",
 		Decided:     []string{"every bucket write goes through an owned bucket (gate / fresh)", "every bucket store is owned / moved with its flag / cloned", "every may-empty bucket operation is followed by an emptiness test", "insertion index searched in the destination table (static Flip)", "FastOr/FastAnd/ParOr of one bitmap return a fresh bitmap", "read-only API never changes its arguments"},
 		NotDecided:  []string{"per-bucket range splitting", "Rank/Select accumulation", "iterator arithmetic", "absence of panics in general"},
@@ -216,16 +224,19 @@ var propRules = map[string]*PropSpec{
 		Technique:  techErr,
 	},
 	"C19": {
-		Rules:       []string{"PC1", "PC2", "B1", "P1", "A7", "U3"},
+		Rules:       []string{"PC1", "PC2", "B1", "P1", "A7", "U3", "A3.bsi"},
 		Explanation: explBase + " C19: every whole-index operation touches every plane including the sign plane; (un)marshal errors propagate; per-plane goroutines are joined.",
-		Decided:     []string{"Clone/NewBSIRetainSet, ClearValues, ParOr, RunOptimize, Equals, WriteTo/ReadFrom ... iterate over all len(bA) planes (sign plane included)", "SetValue/SetMany/SetBigValue/SetBigMany write (set or clear) every plane", "widening copies the old sign plane into every new plane up to the new top plane", "Marshal/Unmarshal/WriteTo/ReadFrom propagate errors", "per-plane goroutines are paired with a WaitGroup", "Clone/NewBSIRetainSet copy planes only from freshly cloned bitmaps (no shared headers)"},
-		NotDecided:  []string{"two's-complement encode/decode", "ripple-carry addition", "how many planes a value needs"},
-		Technique:   "static analysis: loop-bound vs slice-length agreement over go/ssa; error-flow rules",
+		Decided: []string{
+			"planes of the 32-bit index are freshly built bitmaps, never a caller's bitmap (Add/addDigit, ParOr, UnmarshalBinary, NewBSIRetainSet)",
+			"Clone/NewBSIRetainSet, ClearValues, ParOr, RunOptimize, Equals, WriteTo/ReadFrom ... iterate over all len(bA) planes (sign plane included)", "SetValue/SetMany/SetBigValue/SetBigMany write (set or clear) every plane", "widening copies the old sign plane into every new plane up to the new top plane", "Marshal/Unmarshal/WriteTo/ReadFrom propagate errors", "per-plane goroutines are paired with a WaitGroup", "Clone/NewBSIRetainSet copy planes only from freshly cloned bitmaps (no shared headers)"},
+		NotDecided: []string{"two's-complement encode/decode", "ripple-carry addition", "how many planes a value needs"},
+		Technique:  "static analysis: loop-bound vs slice-length agreement over go/ssa; error-flow rules",
 	},
 	"C20": {
-		Rules:       []string{"A1.bsi", "P1", "U3"},
+		Rules:       []string{"A1.bsi", "P1", "U3", "A3.bsi"},
 		Explanation: explBase + " C20: queries never change the index, returned bitmaps are never the index's internal bitmaps, fan-out goroutines are joined.",
 		Decided: []string{
+			"comparison constants (*big.Int, task fields) are never overwritten by the functions that receive them",
 			"no query ignores one of its parameters (found-set, operator, bounds) apart from two named, justified cases",
 			"no BSI query changes the contents of the index's planes or existence bitmap", "no query returns a pointer to an internal bitmap (eBM / bA[i]) of the index", "parallel executors pair every goroutine with WaitGroup.Done"},
 		NotDecided: []string{"the comparison automaton", "trie/cube shortcuts", "sums and min/max", "found-set restriction arithmetic"},
